@@ -576,8 +576,10 @@ theorem iter_bytes (sz : Sizes) (C : Crypto) (s : Srv) (tq ts : Int) (batch : Li
   generalize handleItems sz C tq s batch acts = r1 at *
   obtain ⟨s1, acts1, e1⟩ := r1
   simp only at h1 b1 hnc ⊢
-  have h2 := sweepConns_unv C sz ts s1 s1.conns (nextAct acts1).2 a
-  generalize sweepConns C sz ts s1 s1.conns (nextAct acts1).2 = r2 at *
+  have h2 := sweepConns_unv C sz ts (if (nextAct acts1).1 = HAct.kick then kickAll s1 else s1)
+    (if (nextAct acts1).1 = HAct.kick then kickAll s1 else s1).conns (nextAct acts1).2 a
+  generalize sweepConns C sz ts (if (nextAct acts1).1 = HAct.kick then kickAll s1 else s1)
+    (if (nextAct acts1).1 = HAct.kick then kickAll s1 else s1).conns (nextAct acts1).2 = r2 at *
   obtain ⟨s2, acts2, e2⟩ := r2
   simp only at h2 hnc ⊢
   have h3 := sweepTemps_bytes C sz ts s2 s2.temps a
@@ -588,7 +590,8 @@ theorem iter_bytes (sz : Sizes) (C : Crypto) (s : Srv) (tq ts : Int) (batch : Li
     fun id tok h => hnc id tok (by simp only [List.append_assoc]; exact List.mem_append_left _ h)
   have h1' := h1 hn1
   have b1' := b1 hn1
-  have h2' := h2 h1'.nc
+  have h2' := h2 (maybeKick_absent s1 _ a h1'.nc)
+  rw [maybeKick_temps] at h2'
   have hk2 : KN s2.temps := by rw [h2'.1]; exact h1'.kn
   have hq2 : TQp s2.temps := by rw [h2'.1]; exact h1'.tq
   have h3' := h3 hk2 hq2 (fun x hx => pget_of_mem _ _ _ hk2 hx) hk2
